@@ -227,6 +227,7 @@ pub fn generate(seed: u64, thorough: bool, emit: &mut dyn FnMut(String)) {
     hardening_families(seed, thorough, emit);
     range_edge_families(seed, thorough, emit);
     round4_families(seed, thorough, emit);
+    round5_families(seed, thorough, emit);
 }
 
 /// the same polynomial in every representation the integrators accept: dense / sparse, variables other than x,
@@ -790,6 +791,112 @@ pub fn round4_families(seed: u64, thorough: bool, emit: &mut dyn FnMut(String)) 
             emit(romberg(&repr_any(&mut rng, &cs, w), a, b, 2 + rng.below(8), *rng.pick(&[10.0, 1.0, 1e-3, 1e-6, 1e-9, 0.0])));
         } else {
             emit(simpson(&repr_any(&mut rng, &cs, w), a, b, n));
+        }
+    }
+}
+
+// ---------------------------------------------------------------- round-5 families: endpoints that are roots of a derivative
+/// (N1) THE INTERVAL ENDS ARE EXACT ROOTS OF A DERIVATIVE OF THE INTEGRAND (category N: a parameter that equals a computed
+/// value).  f^(k) = c (x - a)(x - b) q(x) (or with a double root at one end, or with the midpoint as a third root, or
+/// vanishing at one end and the midpoint only) with
+/// small integer q, integrated k times with every coefficient scaled by the common denominator so that all of them stay
+/// small integers / dyadic rationals: f^(k)(a) and f^(k)(b) evaluate to exactly 0.0 in binary64 although f^(k) is not the
+/// zero polynomial.  k = 4 (the derivative of Simpson's error term: degree 6..8) in more than half of the cases, k = 1, 2, 3,
+/// 5, 6 in the rest; lower-order terms arbitrary; n = 3..200; every representation.  A "the integrand is of low degree /
+/// flat / linear at the ends" decision made by sampling a derivative at the ends shows here; the error-bound clause of the
+/// oracle (exact rationals) judges every case.
+pub fn round5_families(seed: u64, thorough: bool, emit: &mut dyn FnMut(String)) {
+    let mut rng = Rng::new(seed ^ 0xC05_5EED_5);
+    let mul = if thorough { 10 } else { 1 };
+    let simpson = |p: &AnyPoly, a: f64, b: f64, n: usize| format!("simpson {} {} {} {n}", req_any(p), rbits(a), rbits(b));
+    let romberg = |p: &AnyPoly, a: f64, b: f64, cap: u64, tol: f64| {
+        format!("romberg {} {} {} {cap} {}", req_any(p), rbits(a), rbits(b), rbits(tol))
+    };
+    fn gcd(a: u64, b: u64) -> u64 {
+        if b == 0 { a } else { gcd(b, a % b) }
+    }
+    for r in 0..260 * mul {
+        let k: usize = if r % 5 < 3 { 4 } else { *rng.pick(&[1usize, 2, 3, 5, 6, 4]) };
+        let a = rng.range(-6, 6) as f64 / 2.0;
+        let w = *rng.pick(&[0.5, 1.0, 1.0, 1.5, 2.0, 2.0, 3.0, 4.0]);
+        let b = a + w;
+        let (a, b) = if rng.chance(1, 5) { (b, a) } else { (a, b) };
+        // the roots of the k-th derivative
+        let roots: Vec<f64> = match rng.below(10) {
+            0 => vec![a, a, b],
+            1 => vec![a, b, b],
+            2 => vec![a, b, a / 2.0 + b / 2.0],
+            // one end and the midpoint
+            8 => vec![a, a / 2.0 + b / 2.0],
+            9 => vec![a / 2.0 + b / 2.0, b],
+            _ => vec![a, b],
+        };
+        let c = *rng.pick(&[1.0, -1.0, 2.0, 3.0, -2.0, 0.5]);
+        let mut g = expand_small(c, &roots);
+        // times q(x) of small integer coefficients while the degree of f stays <= 8
+        let room = 8usize.saturating_sub(k + g.len() - 1);
+        let dq = if room == 0 { 0 } else { rng.below(room as u64 + 1) as usize };
+        if dq > 0 {
+            let q: Vec<f64> = (0..=dq).map(|j| if j == dq { *rng.pick(&[1.0, -1.0, 2.0]) } else { rng.range(-3, 3) as f64 }).collect();
+            let mut next = vec![0.0; g.len() + dq];
+            for (i, gi) in g.iter().enumerate() {
+                for (j, qj) in q.iter().enumerate() {
+                    next[i + j] += gi * qj;
+                }
+            }
+            g = next;
+        }
+        if g.len() + k > 9 {
+            continue;
+        }
+        // integrate k times: x^j -> x^(j+k) j!/(j+k)!, everything multiplied by the least common multiple of the divisors
+        let den: Vec<u64> = (0..g.len()).map(|j| ((j + 1)..=(j + k)).map(|t| t as u64).product()).collect();
+        let l = den.iter().fold(1u64, |acc, d| acc / gcd(acc, *d) * *d);
+        let mut cs = vec![0.0; g.len() + k];
+        for (j, gj) in g.iter().enumerate() {
+            cs[j + k] = gj * (l / den[j]) as f64;
+        }
+        // a common power of two (exact), the lower-order terms arbitrary
+        let sc = 2f64.powi(rng.range(-12, 2) as i32);
+        for v in cs.iter_mut() {
+            *v *= sc;
+        }
+        for v in cs.iter_mut().take(k) {
+            *v = if rng.chance(1, 3) { 0.0 } else { rng.dyadic(24, 3) };
+        }
+        // the generator's own check: the k-th derivative (formed the way a program would: coefficient times falling
+        // factorial, Horner) is exactly 0.0 at both ends and not identically zero
+        let dk: Vec<f64> = (k..cs.len()).map(|e| cs[e] * ((e - k + 1)..=e).map(|t| t as f64).product::<f64>()).collect();
+        let at = |x: f64| dk.iter().rev().fold(0.0, |acc, v| acc * x + v);
+        if roots.iter().any(|x| at(*x) != 0.0) || dk.iter().all(|v| *v == 0.0) || cs.iter().any(|v| !v.is_finite()) {
+            continue;
+        }
+        let n = match rng.below(3) {
+            0 => *rng.pick(&[3usize, 4, 5, 6, 7, 8, 9, 10, 12, 16]),
+            _ => rng.range(3, 200) as usize,
+        };
+        let wch = rng.below(5);
+        if r % 13 == 12 {
+            emit(romberg(&repr_any(&mut rng, &cs, wch), a, b, 2 + rng.below(8), *rng.pick(&[1.0, 1e-3, 1e-6, 1e-9, 0.0])));
+        } else {
+            emit(simpson(&repr_any(&mut rng, &cs, wch), a, b, n));
+        }
+    }
+    // the plain textbook instances: x^6 - 3x^5 on [0,1] (fourth derivative 360 x (x - 1)), x^6 - 15x^4 on [-1,1] and
+    // reversed (360 (x^2 - 1)), x^7 - 7x^5 (840 x (x^2 - 1)) on [-1,1], [0,1], [-1,0]
+    for (cs, a, b) in [
+        (vec![0.0, 0.0, 0.0, 0.0, 0.0, -3.0, 1.0], 0.0, 1.0),
+        (vec![0.0, 0.0, 0.0, 0.0, -15.0, 0.0, 1.0], -1.0, 1.0),
+        (vec![0.0, 0.0, 0.0, 0.0, -15.0, 0.0, 1.0], 1.0, -1.0),
+        (vec![1.0, 0.0, 0.0, 0.0, 0.0, -7.0, 0.0, 1.0], -1.0, 1.0),
+        (vec![1.0, 0.0, 0.0, 0.0, 0.0, -7.0, 0.0, 1.0], 0.0, 1.0),
+        (vec![0.0, 2.0, 0.0, 0.0, 0.0, -7.0, 0.0, 1.0], -1.0, 0.0),
+    ] {
+        for n in [3usize, 4, 6, 9, 50, 200] {
+            if thorough || (n + seed as usize) % 2 == 0 {
+                let wch = rng.below(5);
+                emit(simpson(&repr_any(&mut rng, &cs, wch), a, b, n));
+            }
         }
     }
 }
